@@ -19,22 +19,25 @@ def conn_family(cx, model, gen_prop, n_quick, n_thorough, consts_thorough=None, 
     build_harness(cx)
     thorough = cx.tier == "thorough"
     consts = consts_thorough if thorough else None
-    play_extra = (play_extra or []) + ["-proj", proj if proj is not None else cx.pid]
+    base_extra = list(play_extra or [])
+    default_proj = proj if proj is not None else cx.pid
     files = []
     b1 = model_check(cx, model, consts=consts, workers=mc_workers) if model else None
     if b1:
-        files.append(("tlc", b1))
-    for (m, cfg, c_q, c_t) in extra_models:
+        files.append(("tlc", b1, default_proj))
+    for em in extra_models:
+        m, cfg, c_q, c_t = em[:4]
         b = model_check(cx, m, cfg=cfg, consts=(c_t if thorough else c_q))
         if b:
-            files.append(("tlc-" + cfg.replace(".cfg", ""), b))
+            files.append(("tlc-" + cfg.replace(".cfg", ""), b, em[4] if len(em) > 4 else default_proj))
     if thorough:
         for (m, cfg, expect) in negative:
             model_check(cx, m, cfg=cfg, expect_violation=expect, export=False)
     if gen_prop:
         b2 = gen_random(cx, gen_prop, n_thorough if thorough else n_quick, extra=gen_extra)
-        files.append(("rand", b2))
-    for tag, b in files:
+        files.append(("rand", b2, default_proj))
+    for tag, b, pj in files:
+        play_extra = base_extra + ["-proj", pj]
         if tag.startswith("tlc"):
             subsample(cx, b, max_replay_thorough if thorough else max_replay_quick)
         sample_behaviours(cx, b)
@@ -42,7 +45,7 @@ def conn_family(cx, model, gen_prop, n_quick, n_thorough, consts_thorough=None, 
         rejected = [] if crash else validate(cx, trace, trace_module, trace_cfg)
         judge(cx, b, trace, rejected, crash, trace_module, trace_cfg=trace_cfg, known_match=known_match,
               play_extra=play_extra)
-    count_distinct(cx, *[b for _, b in files])
+    count_distinct(cx, *[f[1] for f in files])
     cx.cov["trusted_base"] = TB_CONN
     return finish(cx, "model_checking", rule, ASSUME_CONN)
 
@@ -166,7 +169,24 @@ def c19(cx):
              "validates all of it. Random driver: up to 6 middlewares, 10 commands.")
 
 
-PROPS = {"C19": c19, "C12": c12, "C01": c01, "C13": c13, "C05": c05, "C06": c06, "C07": c07, "C08": c08, "C17": c17}
+def c10(cx):
+    limits = "16,17,64,4095,4096,4097,8192,65536" + (",0,-1" if cx.tier == "thorough" else "")
+    return conn_family(
+        cx, "MC_C10", "C10", 600, 10000,
+        consts_thorough={"MaxSends": 5},
+        extra_models=[("MC_C10", "MC_C10pre.cfg", None, None, "C10pre")],
+        play_extra=["-limits", limits],
+        rule="TLC explores, for a symbolic limit L, sessions of up to MaxSends messages over: Query with body exactly L, "
+             "L-1, small; messages of all 14 types declaring L+1, 2L, 2L+1, 3L+7; declared lengths 0..3; headers declaring "
+             "2^31, 2^32-5, 2^32-1 followed by ten bytes and end of input; plus oversized/undersized startup packets and "
+             "password messages (MC_C10pre). It checks: one non-fatal 54000 ErrorResponse and the session continues; "
+             "before the session the connection ends; a fitting message reaches its parser. The transition cover is "
+             "executed on the real server with L instantiated from {16,17,64,4095,4096,4097,8192,65536} (thorough: also "
+             "the 16 MiB default via 0 and -1); TLC validates the reaction to every message and to the one after it. "
+             "Random driver: 12 limits, lengths around them, pipelining.")
+
+
+PROPS = {"C10": c10, "C19": c19, "C12": c12, "C01": c01, "C13": c13, "C05": c05, "C06": c06, "C07": c07, "C08": c08, "C17": c17}
 
 
 def replay(cx, path):
